@@ -690,11 +690,452 @@ fn c14(cli: &Cli) {
     rep.finish();
 }
 
+// ------------------------------------------------------------------------------------------
+// C13: subscriptions across restarts
+// ------------------------------------------------------------------------------------------
+
+const Q13: &[(&str, &str, &str)] = &[
+    ("projection", "SELECT id, v FROM p", "p"),
+    ("inner_join", "SELECT p.id, p.v, c.id, c.w FROM p JOIN c ON c.p_id = p.id", "p"),
+];
+
+#[derive(Clone, Debug, serde::Serialize, serde::Deserialize)]
+struct Case13 {
+    query: usize,
+    /// transactions processed (with a barrier each) before the stop
+    before: usize,
+    /// graceful: transactions arriving after the trip and before the handles are dropped
+    after_trip: usize,
+    /// graceful: trip while a batch is being processed (matcher parked before its commit)
+    trip_mid_batch: bool,
+    /// abrupt: crash image = sub.sqlite WAL cut after this many commit frames (None: graceful)
+    wal_commits: Option<usize>,
+}
+
+fn tx13(k: usize) -> Vec<Statement> {
+    let s = |q: String| Statement::Simple(q);
+    match k % 4 {
+        0 => vec![s("INSERT INTO p (id,v,g) VALUES (1,'a',NULL) ON CONFLICT (id) DO UPDATE SET v=excluded.v || '+'".into())],
+        1 => vec![s("INSERT INTO c (id,p_id,w) VALUES (1,1,'x') ON CONFLICT (id) DO UPDATE SET w=excluded.w || '+'".into())],
+        2 => vec![s(format!("UPDATE p SET v='u{k}' WHERE id=1"))],
+        _ => vec![s("INSERT INTO p (id,v,g) VALUES (2,'b','h') ON CONFLICT (id) DO UPDATE SET v=excluded.v || '+'".into())],
+    }
+}
+
+/// commit boundaries (byte offsets just after a commit frame) of a WAL file
+fn wal_commit_offsets(wal: &[u8]) -> Vec<usize> {
+    if wal.len() < 32 {
+        return vec![];
+    }
+    let page = u32::from_be_bytes([wal[8], wal[9], wal[10], wal[11]]) as usize;
+    let mut out = vec![];
+    let mut off = 32;
+    while off + 24 + page <= wal.len() {
+        let dbsize = u32::from_be_bytes([wal[off + 4], wal[off + 5], wal[off + 6], wal[off + 7]]);
+        off += 24 + page;
+        if dbsize != 0 {
+            out.push(off);
+        }
+    }
+    out
+}
+
+static GATE_ARMED: std::sync::atomic::AtomicBool = std::sync::atomic::AtomicBool::new(false);
+static GATE_PARKED: std::sync::atomic::AtomicBool = std::sync::atomic::AtomicBool::new(false);
+static GATE_OPEN: std::sync::atomic::AtomicBool = std::sync::atomic::AtomicBool::new(false);
+
+fn install_gate() {
+    use std::sync::atomic::Ordering::SeqCst;
+    klukai_types::verif::set_point_handler(Some(std::sync::Arc::new(|name: &str, _d: &str| {
+        if name == "matcher.before_commit" && GATE_ARMED.swap(false, SeqCst) {
+            GATE_PARKED.store(true, SeqCst);
+            let start = Instant::now();
+            while !GATE_OPEN.load(SeqCst) {
+                std::thread::sleep(Duration::from_micros(200));
+                if start.elapsed() > Duration::from_secs(20) {
+                    break;
+                }
+            }
+            GATE_OPEN.store(false, SeqCst);
+            GATE_PARKED.store(false, SeqCst);
+        }
+    })));
+}
+
+struct Out13 {
+    violations: Vec<(String, Value)>,
+    outcome: u64,
+    /// number of commit boundaries of the subscription's WAL (for enumerating crash images)
+    wal_commits: usize,
+}
+
+fn run_case13(tpl: &Template, case: &Case13) -> Out13 {
+    use std::sync::atomic::Ordering::SeqCst;
+    let s = Scratch::new("sub13");
+    let db = tpl.instantiate(&s.path().join("n"));
+    let (qname, qsql, qtable) = Q13[case.query];
+    let mut violations: Vec<(String, Value)> = vec![];
+    let mut node = RtNode::open(&db, NodeOpts::default());
+    let case2 = case.clone();
+    // ---- first life
+    let (sub_id, last_id_before, wal_image, graceful_ok) = node.run(async |nd| {
+        let subs_path = nd.agent.config().db.subscriptions_path();
+        let schema = nd.agent.schema().read().clone();
+        let (handle, created) = nd.agent.subs_manager().get_or_insert(qsql, subs_path.as_path(), &schema, nd.agent.pool(), nd.tripwire.clone()).expect("create sub");
+        let mut rx = created.unwrap().evt_rx;
+        loop {
+            match tokio::time::timeout(Duration::from_secs(20), rx.recv()).await {
+                Ok(Some(QueryEvent::EndOfQuery { .. })) => break,
+                Ok(Some(_)) => {}
+                other => machinery_error(&format!("initial events: {other:?}")),
+            }
+        }
+        rebaseline_settled().await;
+        let qstatic: &'static Q = Box::leak(Box::new(Q { name: qname, sql: qsql, keyed: qsql, first_table: qtable, nullable: &[] }));
+        let sub = Sub { q: qstatic, handle, rx, replay: BTreeMap::new(), last_change_id: 0, keyed_before: vec![], tainted: false };
+        let mut sub = sub;
+        let mut last_id = 0u64;
+        for k in 0..case2.before {
+            let (st, _b, _bc) = nd.write(tx13(k), None).await;
+            assert_eq!(st, 200);
+            barrier(&sub).await;
+            while let Ok(ev) = sub.rx.try_recv() {
+                if let QueryEvent::Change(_, _, _, id) = ev {
+                    last_id = id.0;
+                }
+            }
+        }
+        let id = sub.handle.id();
+        let sub_db = klukai_types::pubsub::Matcher::sub_db_path(subs_path.as_path(), id);
+        if case2.wal_commits.is_some() {
+            // abrupt: take the files as they are; the caller cuts the WAL
+            let wal = std::fs::read(format!("{sub_db}-wal")).unwrap_or_default();
+            let main = std::fs::read(sub_db.as_std_path()).unwrap_or_default();
+            return (id, last_id, Some((main, wal)), true);
+        }
+        // ---- graceful shutdown
+        let mut k = case2.before;
+        if case2.trip_mid_batch {
+            GATE_ARMED.store(true, SeqCst);
+            let (st, _b, _bc) = nd.write(tx13(k), None).await;
+            assert_eq!(st, 200);
+            k += 1;
+            // push the batch through and wait until the matcher is parked before its commit
+            let mut cand = MatchCandidates::new();
+            let mut keys = indexmap::IndexMap::new();
+            for i in 0..1000i64 {
+                keys.insert(pack_columns(&[SqliteValue::Integer(9_000_000 + i)]).unwrap(), 1i64);
+            }
+            cand.insert(TableName(qtable.into()), keys);
+            sub.handle.changes_tx().send(cand).await.unwrap();
+            let start = Instant::now();
+            while !GATE_PARKED.load(SeqCst) {
+                tokio::time::sleep(Duration::from_micros(300)).await;
+                if start.elapsed() > Duration::from_secs(20) {
+                    machinery_error("matcher never reached the gate");
+                }
+            }
+        }
+        // trip
+        let _ = nd.tripwire_tx.send(()).await;
+        tokio::time::sleep(Duration::from_millis(2)).await;
+        for _ in 0..case2.after_trip {
+            let (st, _b, _bc) = nd.write(tx13(k), None).await;
+            assert_eq!(st, 200);
+            k += 1;
+            // the matcher may already be winding down, so task counts are no guide here: wait
+            // until the transaction's own broadcast task (a counted task) has handed its
+            // candidates over, i.e. only the matcher itself is still counted
+            let start = Instant::now();
+            while klukai_types::spawn::PENDING_HANDLES.load(SeqCst) > 1 {
+                tokio::time::sleep(Duration::from_micros(200)).await;
+                if start.elapsed() > Duration::from_secs(10) {
+                    machinery_error("broadcast task of a late transaction did not finish");
+                }
+            }
+        }
+        if case2.trip_mid_batch {
+            GATE_OPEN.store(true, SeqCst);
+        }
+        // what the node does on shutdown: drop the handles, wait for the counted tasks
+        let Sub { handle, mut rx, .. } = sub;
+        drop(handle);
+        nd.agent.subs_manager().drop_handles().await;
+        let start = Instant::now();
+        let mut finished = true;
+        while klukai_types::spawn::PENDING_HANDLES.load(SeqCst) != 0 {
+            // keep the event channel drained so a blocked send cannot hold the matcher
+            while let Ok(ev) = rx.try_recv() {
+                if let QueryEvent::Change(_, _, _, id) = ev {
+                    last_id = last_id.max(id.0);
+                }
+            }
+            tokio::time::sleep(Duration::from_millis(1)).await;
+            if start.elapsed() > Duration::from_secs(15) {
+                finished = false;
+                break;
+            }
+        }
+        while let Ok(ev) = rx.try_recv() {
+            if let QueryEvent::Change(_, _, _, id) = ev {
+                last_id = last_id.max(id.0);
+            }
+        }
+        (id, last_id, None, finished)
+    });
+    if !graceful_ok {
+        violations.push(("C13:matcher-did-not-finish-on-graceful-shutdown".into(), json!({"case": case})));
+    }
+    node.crash();
+    let subs_dir = db.parent().unwrap().join("subscriptions");
+    let sub_dir = subs_dir.join(sub_id.as_simple().to_string());
+    let mut wal_commits = 0;
+    if let Some((main, wal)) = &wal_image {
+        let offs = wal_commit_offsets(wal);
+        wal_commits = offs.len();
+        let cut = case.wal_commits.unwrap();
+        let keep = if cut == 0 { 0 } else { offs.get(cut - 1).copied().unwrap_or(wal.len()) };
+        std::fs::write(sub_dir.join("sub.sqlite"), main).unwrap();
+        std::fs::write(sub_dir.join("sub.sqlite-wal"), &wal[..keep]).unwrap();
+        let _ = std::fs::remove_file(sub_dir.join("sub.sqlite-shm"));
+    }
+    // state the previous life left behind
+    let state_before: Option<String> = rusqlite::Connection::open(sub_dir.join("sub.sqlite"))
+        .ok()
+        .and_then(|c| c.query_row("SELECT value FROM meta WHERE key = 'state'", [], |r| r.get(0)).ok());
+    let max_change_before: Option<u64> = rusqlite::Connection::open(sub_dir.join("sub.sqlite"))
+        .ok()
+        .and_then(|c| c.query_row("SELECT COALESCE(MAX(id),0) FROM changes", [], |r| r.get(0)).ok());
+    // ---- restart through the real setup()
+    let rt = new_runtime(2);
+    let dbp = db.clone();
+    let case3 = case.clone();
+    let v2: Vec<(String, Value)> = rt.block_on(async move {
+        let mut viol = vec![];
+        let conf = klukai_types::config::Config::builder()
+            .db_path(dbp.display().to_string())
+            .gossip_addr("127.0.0.1:0".parse().unwrap())
+            .api_addr("127.0.0.1:0".parse().unwrap())
+            .build()
+            .unwrap();
+        let (tripwire, worker, _tx) = klukai_types::tripwire::Tripwire::new_simple();
+        tokio::spawn(worker);
+        let (agent, opts) = match klukai_agent::agent::setup(conf, tripwire).await {
+            Ok(x) => x,
+            Err(e) => {
+                viol.push(("C13:restart-failed".to_string(), json!({"err": e.to_string()})));
+                return viol;
+            }
+        };
+        let restored = opts.subs_manager.get(&sub_id);
+        let graceful = case3.wal_commits.is_none();
+        let completed = state_before.as_deref() == Some("completed");
+        if graceful && !completed {
+            viol.push(("C13:graceful-shutdown-did-not-end-completed".to_string(), json!({"state": state_before})));
+        }
+        if !completed {
+            if restored.is_some() {
+                viol.push(("C13:subscription-served-after-unclean-stop".to_string(), json!({"state": state_before})));
+            }
+            if sub_dir.exists() {
+                viol.push(("C13:unclean-subscription-directory-kept".to_string(), json!({"state": state_before})));
+            }
+            return viol;
+        }
+        let handle = match restored {
+            Some(h) => h,
+            None => {
+                viol.push(("C13:completed-subscription-not-restored".to_string(), json!({})));
+                return viol;
+            }
+        };
+        // rows == query on the node database
+        let want = {
+            let conn = agent.pool().read().await.unwrap();
+            let mut w = tokio::task::block_in_place(|| dump_query(&conn, qsql));
+            w.sort();
+            w
+        };
+        let ncols = handle.parsed_columns().len();
+        let cols: Vec<String> = (0..ncols).map(|i| format!("col_{i}")).collect();
+        let sub_db = sub_dir.join("sub.sqlite");
+        let read_sub = |sql: String| {
+            let p = sub_db.clone();
+            tokio::task::block_in_place(move || {
+                let c = rusqlite::Connection::open_with_flags(&p, rusqlite::OpenFlags::SQLITE_OPEN_READ_ONLY).unwrap();
+                dump_query(&c, &sql)
+            })
+        };
+        let mut got = read_sub(format!("SELECT {} FROM query", cols.join(",")));
+        got.sort();
+        if got != want {
+            viol.push(("C13:restored-rows-differ-from-query".to_string(), json!({"materialised": got, "query_result": want})));
+        }
+        // change log ends with the last change produced before shutdown
+        let max_now = max_change_before.unwrap_or(0);
+        if graceful && case3.after_trip == 0 && !case3.trip_mid_batch && max_now != last_id_before {
+            viol.push(("C13:change-log-does-not-end-with-last-change-before-shutdown".to_string(), json!({"log_max": max_now, "last_event_seen": last_id_before})));
+        }
+        if max_now < last_id_before {
+            viol.push(("C13:change-log-shorter-than-events-delivered".to_string(), json!({"log_max": max_now, "last_event_seen": last_id_before})));
+        }
+        // new events continue with the next change id
+        let sender = opts.subs_bcast_cache.read().await.get(&sub_id).cloned();
+        let mut brx = match sender {
+            Some(s) => s.subscribe(),
+            None => {
+                viol.push(("C13:restored-subscription-has-no-event-channel".to_string(), json!({})));
+                return viol;
+            }
+        };
+        let (st, _b) = klukai_agent::api::public::api_v1_transactions(
+            axum::Extension(agent.clone()),
+            axum::extract::Query(klukai_agent::api::public::TimeoutParams { timeout: None }),
+            axum::extract::Json(vec![Statement::Simple("INSERT INTO p (id,v,g) VALUES (77,'new',NULL)".into()), Statement::Simple("INSERT INTO c (id,p_id,w) VALUES (77,77,'new')".into())]),
+        )
+        .await;
+        if !st.is_success() {
+            machinery_error("post-restart write failed");
+        }
+        // barrier through the restored matcher
+        let id = sub_id.to_string();
+        let before = emit_count(&id);
+        let mut cand = MatchCandidates::new();
+        let mut keys = indexmap::IndexMap::new();
+        for i in 0..1000i64 {
+            keys.insert(pack_columns(&[SqliteValue::Integer(9_000_000 + i)]).unwrap(), 1i64);
+        }
+        cand.insert(TableName(qtable.into()), keys);
+        // the write's own candidates travel through a spawned task: give it a moment first
+        tokio::time::sleep(Duration::from_millis(20)).await;
+        handle.changes_tx().send(cand).await.unwrap();
+        let start = Instant::now();
+        while emit_count(&id) == before {
+            tokio::time::sleep(Duration::from_millis(1)).await;
+            if start.elapsed() > Duration::from_secs(20) {
+                viol.push(("C13:restored-matcher-does-not-process-changes".to_string(), json!({})));
+                return viol;
+            }
+        }
+        tokio::time::sleep(Duration::from_millis(5)).await;
+        let mut first_new = None;
+        while let Ok((_bytes, meta)) = brx.try_recv() {
+            if let klukai_types::api::QueryEventMeta::Change(id) = meta {
+                if first_new.is_none() {
+                    first_new = Some(id.0);
+                }
+            }
+        }
+        match first_new {
+            None => viol.push(("C13:no-event-after-restart".to_string(), json!({}))),
+            Some(f) => {
+                if f != max_now + 1 {
+                    viol.push(("C13:first-event-after-restart-has-wrong-id".to_string(), json!({"got": f, "want": max_now + 1})));
+                }
+            }
+        }
+        opts.subs_manager.drop_handles().await;
+        viol
+    });
+    rt.shutdown_timeout(Duration::from_secs(5));
+    violations.extend(v2);
+    let outcome = digest(&(violations.len(), wal_commits));
+    Out13 { violations, outcome, wal_commits }
+}
+
+fn c13(cli: &Cli) {
+    let rep = Report::new("C13", cli.tier, cli.seed);
+    sweep_stale_scratch();
+    install_gate();
+    let tpl = Template::build(0, SCHEMA);
+    if let Some(p) = &cli.replay {
+        let r = load_replay(p);
+        let case: Case13 = serde_json::from_value(r["case"].clone()).unwrap();
+        let out = run_case13(&tpl, &case);
+        for (k, d) in &out.violations {
+            println!("reproduced {k}: {d}");
+        }
+        std::process::exit(if out.violations.is_empty() { 0 } else { 1 });
+    }
+    let mut cases: Vec<Case13> = vec![];
+    let maxb = cli.tier.pick(2, 4);
+    for q in 0..Q13.len() {
+        for before in 0..=maxb {
+            for after_trip in 0..=2 {
+                for mid in [false, true] {
+                    cases.push(Case13 { query: q, before, after_trip, trip_mid_batch: mid, wal_commits: None });
+                }
+            }
+        }
+    }
+    let deadline = Instant::now() + Duration::from_secs(cli.tier.pick(55, 1500));
+    let mut execs = 0u64;
+    let mut capped = None;
+    let mut run = |case: &Case13, rep: &Report, execs: &mut u64| -> usize {
+        let out = run_case13(&tpl, case);
+        *execs += 1;
+        if !out.violations.is_empty() {
+            let again = run_case13(&tpl, case);
+            let k1: Vec<&String> = out.violations.iter().map(|v| &v.0).collect();
+            let k2: Vec<&String> = again.violations.iter().map(|v| &v.0).collect();
+            if k1 != k2 {
+                machinery_error(&format!("non-deterministic case {case:?}: {k1:?} vs {k2:?}"));
+            }
+        }
+        for (k, d) in out.violations {
+            rep.violation(&k, json!({"case": case, "d": d}));
+        }
+        rep.outcome(out.outcome);
+        rep.nontrivial(digest(&format!("{case:?}")));
+        if *execs % 17 == 3 {
+            rep.sample(json!({"case": case}));
+        }
+        out.wal_commits
+    };
+    // abrupt stops: every commit boundary of the subscription database's log
+    'ab: for q in 0..Q13.len() {
+        for before in 0..=maxb {
+            let probe = Case13 { query: q, before, after_trip: 0, trip_mid_batch: false, wal_commits: Some(usize::MAX) };
+            let n = run(&probe, &rep, &mut execs);
+            for cut in 0..n {
+                if Instant::now() > deadline {
+                    capped = Some("wall-clock cap during abrupt-stop enumeration".to_string());
+                    break 'ab;
+                }
+                let c = Case13 { query: q, before, after_trip: 0, trip_mid_batch: false, wal_commits: Some(cut) };
+                run(&c, &rep, &mut execs);
+            }
+        }
+    }
+    for case in &cases {
+        if Instant::now() > deadline {
+            capped = Some(format!("wall-clock cap after {execs} executions"));
+            break;
+        }
+        run(case, &rep, &mut execs);
+    }
+    rep.set("states", execs);
+    rep.set("transitions", execs);
+    rep.set("evaluations", execs);
+    rep.set("traces_validated_against_impl", execs);
+    rep.set("exhaustive", capped.is_none());
+    if let Some(c) = capped {
+        rep.set("cap_hit", c);
+    }
+    rep.set("bounds", json!({"queries": Q13.iter().map(|q| q.1).collect::<Vec<_>>(), "batches_before_stop": format!("0..={maxb}"), "transactions_after_trip": "0..=2",
+        "trip_while_batch_in_progress": [false, true], "abrupt": "every commit boundary of sub.sqlite's WAL, plus the uncut files"}));
+    rep.assume("restart goes through the real klukai_agent::agent::setup() (which restores or cleans up subscriptions); the first life runs on the harness's socket-free node");
+    rep.assume("an abrupt stop pairs a prefix of the subscription's log with the node database as it was at the end of the run (the node database is ahead of the subscription, as in a real crash)");
+    rep.require_nontrivial(10, "every case (a distinct stop point / shutdown shape) is non-trivial");
+    rep.finish();
+}
+
 fn main() {
     let cli = parse_cli();
     match cli.props.first().map(|s| s.as_str()) {
         Some("C11") => c11(&cli),
         Some("C14") => c14(&cli),
-        _ => machinery_error("subs: --prop C11|C14"),
+        Some("C13") => c13(&cli),
+        _ => machinery_error("subs: --prop C11|C13|C14"),
     }
 }
